@@ -439,6 +439,12 @@ func (h *Hub) topicUnreg(sess *Session, topic string, msg *ClientComMessage, rea
 		} else {
 			// Case 1.2: topic is offline.
 
+			// The name comes from the client unvalidated: topicCat panics on names it does not recognize.
+			if !topicNameValid(topic) {
+				sess.queueOut(ErrTopicNotFoundReply(msg, now))
+				return nil
+			}
+
 			// Is user a channel subscriber? Use chnABC instead of grpABC and get only this user's subscription.
 			var opts *types.QueryOpt
 			if types.IsChannel(msg.Original) {
